@@ -324,6 +324,24 @@ void CloseFile(void) {
     NewRecord(ProgCounter());
     fseek(PrgFile, RecPos, SEEK_SET);
 
+    /* relocations and exports that found no record to go into
+       must not end up in the next file's first record: */
+
+    while (PatchList) {
+        PatchLast = PatchList;
+        PatchList = PatchLast->Next;
+        free(PatchLast->Ref);
+        free(PatchLast);
+    }
+    while (ExportList) {
+        ExportLast = ExportList;
+        ExportList = ExportLast->Next;
+        free(ExportLast->Name);
+        free(ExportLast);
+    }
+    PatchLast = NULL;
+    ExportLast = NULL;
+
     if (StartAdrPresent) {
         Head = FileHeaderStartAdr;
         if (fwrite(&Head, sizeof(Head), 1, PrgFile) != 1) {
